@@ -204,7 +204,7 @@ func checkC01(env *Env) []Violation {
 	sumC := map[string]int64{}
 	sumH := map[string]int64{}
 	for _, d := range dels {
-		if isInternalName(d.Name) {
+		if env.isInternal(d.Name) {
 			continue
 		}
 		switch d.Kind {
